@@ -911,14 +911,9 @@ func (m *Machine) appendVals(dst, src []value, fn *ssa.Builtin) []value {
 		}
 		return dst
 	}
-	newCap := cap(dst) * 2
-	if newCap < need {
-		newCap = need
-	}
-	if newCap < 4 && need <= 4 {
-		// small first allocations round up like the runtime's size classes (approximation)
-		newCap = need
-	}
+	// element size first: the capacity after growth follows the Go runtime (growslice): amortised
+	// doubling, then the allocation rounded up to its malloc size class, so that cap() - and with
+	// it every len-vs-cap mistake of the code under test - is what a native run sees
 	esz := int64(8)
 	if fn == nil {
 		esz = 1
@@ -927,6 +922,7 @@ func (m *Machine) appendVals(dst, src []value, fn *ssa.Builtin) []value {
 			esz = m.world.Sizes.Sizeof(st.Elem())
 		}
 	}
+	newCap := goGrowCap(cap(dst), need, esz)
 	m.allocGuard(m.tt.Const(64, uint64(newCap)), esz, "append")
 	if newCap > maxModelAlloc {
 		m.path.end("bound: append too large to model")
@@ -953,4 +949,39 @@ func (m *Machine) appendVals(dst, src []value, fn *ssa.Builtin) []value {
 		}
 	}
 	return nd
+}
+
+// goSizeClasses are the Go runtime's small-object size classes (runtime/sizeclasses.go).
+var goSizeClasses = []int64{8, 16, 24, 32, 48, 64, 80, 96, 112, 128, 144, 160, 176, 192, 208, 224, 240, 256, 288, 320, 352, 384, 416, 448, 480, 512, 576, 640, 704, 768, 896, 1024, 1152, 1280, 1408, 1536, 1792, 2048, 2304, 2688, 3072, 3200, 3456, 4096, 4864, 5120, 5376, 6144, 6528, 6784, 6912, 8192, 9472, 9728, 10240, 10880, 12288, 13568, 14336, 16384, 18432, 19072, 20480, 21760, 24576, 27264, 28672, 32768}
+
+// goGrowCap mirrors runtime.growslice's capacity computation (nextslicecap + roundupsize).
+func goGrowCap(oldCap, newLen int, esz int64) int {
+	newcap := oldCap
+	doublecap := newcap + newcap
+	switch {
+	case newLen > doublecap:
+		newcap = newLen
+	case oldCap < 256:
+		newcap = doublecap
+	default:
+		for newcap < newLen {
+			newcap += (newcap + 3*256) >> 2
+		}
+	}
+	if esz <= 0 {
+		return newcap
+	}
+	mem := int64(newcap) * esz
+	if mem <= 32768 {
+		for _, c := range goSizeClasses {
+			if mem <= c {
+				mem = c
+				break
+			}
+		}
+	} else {
+		const page = 8192
+		mem = (mem + page - 1) / page * page
+	}
+	return int(mem / esz)
 }
